@@ -152,24 +152,24 @@ CHECKS = {
 
 # additions of later rounds (appended to the coverage text)
 ADDED = {
-    "C01": " A cell-size chop variant is written, the assembled mesh stretched x2 and written again; the second write is judged by the same model with the new count. Seventh wave: a direction chopped in two sections with identical arguments; blocks of very different sizes (non-uniform lattice spacing).",
-    "C02": " Plus assemblies with a curved shared edge declared by one block only and a chop by cell size along it (count from the mean edge length), all insertion orders and numberings.",
+    "C01": " A cell-size chop variant is written, the assembled mesh stretched x2 and written again; the second write is judged by the same model with the new count. Seventh wave: a direction chopped in two sections with identical arguments; blocks of very different sizes (non-uniform lattice spacing). Eighth wave: chops that arrive through a chop - unchop - chop history on every axis.",
+    "C02": " Plus assemblies with a curved shared edge declared by one block only and a chop by cell size along it (count from the mean edge length), all insertion orders and numberings. Eighth wave: a family's chop given as two sections with identical arguments.",
     "C04": " Plus write - stretch - write histories compared with a fresh mesh (also with the first and last block of a row of three chopped), arcs declared by one block only, uniform multi-section chops, a given total expansion is the one written, and one graded tangential chop on every library shape.",
-    "C06": " Plus a geometry name declared twice (the later declaration counts) and sphere shapes moved between two writes (built-in geometry compared with the shape moved before its first write). Seventh wave: two touching boxes across x / y / z in both add orders with every set of <= 3 projected sides (the shared quad projected from either side or both).",
+    "C06": " Plus a geometry name declared twice (the later declaration counts) and sphere shapes moved between two writes (built-in geometry compared with the shape moved before its first write). Seventh wave: two touching boxes across x / y / z in both add orders with every set of <= 3 projected sides (the shared quad projected from either side or both). Eighth wave: a moved copy of a sphere shape alone in the mesh (everything it projects to must be defined).",
     "C07": " Plus every sequence of <= 2 (thorough 3, thinned) project_edge / project_side(edges=True) calls out of 32 with two labels: each edge is written once as 'project' with exactly the union of its labels. Seventh wave: an OnCurve edge on a curve whose parameter range starts below 0 (parameters of the written points, length for grading).",
-    "C09": " copy(): the copy moved after copying, and the original moved after copying (copy evaluated before or not), each compared with the geometry before. Seventh wave: Oval / HalfDisk / WrappedDisk sketches and shapes extruded from Oval, HalfDisk, FourCoreDisk, WrappedDisk, SplineDisk.",
+    "C09": " copy(): the copy moved after copying, and the original moved after copying (copy evaluated before or not), each compared with the geometry before. Seventh wave: Oval / HalfDisk / WrappedDisk sketches and shapes extruded from Oval, HalfDisk, FourCoreDisk, WrappedDisk, SplineDisk. Eighth wave: both the list and the method form for two-step sequences whose second step has a default origin.",
     "C15": " Maps also at model sizes 1e-4 and 1e3; smoothers that outlive a translation, a moved boundary point, a point fixed by its current position and a deleted block. Seventh wave: mapped sketches put together by MappedSketch.merge() (a list, lists of two, one at a time); the merged map must address the faces' points.",
     "C17": " Surface and curve clamps also in models 1e-3 and 1e3 times the unit size with inexact starting guesses. Seventh wave: parametric-surface clamps whose two parameters have different ranges (descending, nested, disjoint).",
     "C19": " Extruded and lofted (mid sketch) shapes on every sketch: operation [i][j] stands on face [i][j] of the sketch and ends above it. Stacks extruded by a vector or a negative distance; after a deletion the remaining blocks keep their curved edges. Seventh wave: revolved stacks with a negative angle and with an axis off the origin, 1-3 tiers.",
     "C03": " Sizes and ratios that fit the edge with a whole number of cells give exactly that number.",
     "C05": " The side a corner belongs to at a merged interface follows from face connectivity (reference model); pairs declared on the assembled mesh. Seventh wave: chained merges (one patch name per block: the slave patch of one pair is the master patch of the next).",
-    "C12": " delete(), add() and merge_patches() on an assembled mesh take effect at once; assemble() may be repeated (also with skip_edges); a few scripted histories of 6-8 events beyond the search depth. Seventh wave: a projected side on every box of the models (several entries in the faces section across clear / backport / delete).",
-    "C13": " Histories in which the user moves an un-clamped vertex after the optimizer was made; radial clamp bounds checked as arc lengths. Seventh wave: optimize() with its default arguments and with tolerances 0.5 / 1e-3 (the stopping rule), the iteration limit as horizon.",
+    "C12": " delete(), add() and merge_patches() on an assembled mesh take effect at once; assemble() may be repeated (also with skip_edges); a few scripted histories of 6-8 events beyond the search depth. Seventh wave: a projected side on every box of the models (several entries in the faces section across clear / backport / delete). Eighth wave: surfaces declared through the mesh (add_geometry); the geometry section is part of the compared content.",
+    "C13": " Histories in which the user moves an un-clamped vertex after the optimizer was made; radial clamp bounds checked as arc lengths. Seventh wave: optimize() with its default arguments and with tolerances 0.5 / 1e-3 (the stopping rule), the iteration limit as horizon. Eighth wave: a clamp on a corner of the grid (a point of one cell only) next to other cells.",
     "C18": " The round-shape finder is queried again after its vertices were moved and after an earlier entity was deleted.",
     "C20": " Clamps and links added after a vertex was moved; write() after a refused write(); labels of an edge shared by two operations. Seventh wave: three-face shells, one face apart, in all six orders.",
     "C08": " Seventh wave: origin arcs up to 179.4 degrees.",
-    "C10": " Seventh wave: get_closest_side / get_closest_face / get_normal_face from viewers at three distances outside every side, asked twice on one operation.",
-    "C11": " Seventh wave: shells whose shared points see three faces with asymmetric normals (two roofs and a wall, either order; all six sides of a box) with the expected vertex count.",
+    "C10": " Seventh wave: get_closest_side / get_closest_face / get_normal_face from viewers at three distances outside every side, asked twice on one operation. Eighth wave: Loft.from_series with 2-5 faces (side edge i through point i of every face in between).",
+    "C11": " Seventh wave: shells whose shared points see three faces with asymmetric normals (two roofs and a wall, either order; all six sides of a box) with the expected vertex count. Eighth wave: pairs of boxes sharing a side, each given by any of its space diagonals, away from the origin (vertex count, position).",
     "C16": " Seventh wave: analytic and circle curves whose parameter range contains 0 in its interior (0 on the grid and as a vertex parameter of OnCurve edges).",
 }
 
